@@ -8,6 +8,7 @@ import (
 
 	conformancev1 "connectrpc.com/conformance/internal/gen/proto/go/connectrpc/conformance/v1"
 	"google.golang.org/protobuf/encoding/protojson"
+	"google.golang.org/protobuf/proto"
 	"pgregory.net/rapid"
 )
 
@@ -55,6 +56,9 @@ type vfCfg struct {
 	Versions, Protocols, Codecs, Compressions, Streams []int32
 	H2C, TLS, Certs, Trailers, HalfH1, Get, Limit      vfTri
 	Include, Exclude                                   []vfCfgEntry
+	// NoFeaturesKey: nothing is said about features and the file has no "features" key at all (only include / exclude
+	// entries): the defaults apply, the entries count
+	NoFeaturesKey bool
 }
 
 func vfHas(s []int32, v int32) bool {
@@ -254,6 +258,9 @@ func vfCfgProto(c vfCfg) *conformancev1.Config {
 		SupportsH2C: c.H2C.ptr(), SupportsTls: c.TLS.ptr(), SupportsTlsClientCerts: c.Certs.ptr(), SupportsTrailers: c.Trailers.ptr(),
 		SupportsHalfDuplexBidiOverHttp1: c.HalfH1.ptr(), SupportsConnectGet: c.Get.ptr(), SupportsMessageReceiveLimit: c.Limit.ptr(),
 	}}
+	if c.NoFeaturesKey && proto.Size(cfg.Features) == 0 {
+		cfg.Features = nil
+	}
 	for _, e := range c.Include {
 		cfg.IncludeCases = append(cfg.IncludeCases, vfEntryProto(e))
 	}
@@ -349,6 +356,9 @@ func vfGenCfg(t *rapid.T) vfCfg {
 		Compressions: vfGenSubset(t, "compressions", 6), Streams: vfGenSubset(t, "streams", 5),
 		H2C: vfGenTri(t, "h2c"), TLS: vfGenTri(t, "tls"), Certs: vfGenTri(t, "certs"), Trailers: vfGenTri(t, "trailers"),
 		HalfH1: vfGenTri(t, "halfh1"), Get: vfGenTri(t, "get"), Limit: vfGenTri(t, "limit"),
+	}
+	if rapid.IntRange(0, 9).Draw(t, "noFeaturesKey") == 0 {
+		c = vfCfg{NoFeaturesKey: true}
 	}
 	for i, n := 0, rapid.IntRange(0, 3).Draw(t, "ninclude"); i < n; i++ {
 		c.Include = append(c.Include, vfGenEntry(t, "inc"))
